@@ -9,6 +9,9 @@ def frag(name, anchor, **kw):
     return d
 
 
+AUTO = dict(lit='auto pRec = m_FlatCombining.acquire_record();', to='fc_record* pRec = m_FlatCombining.acquire_record();', count=1, why='CBMC types `auto` as int; explicit type = what g++ deduces')
+
+
 def G(name, harness, fns, expect, unwind=8, timeout=900, defines=()):
     return dict(name=name, harness=harness, enforce=[], dfcc=False, functions=fns, expect=expect, props=['C10'], timeout=timeout, unwind=unwind, defines=list(defines),
                 bounded='batch of <= 3 (quick) / 4 (thorough) publication records with symbolic operations and values; deque contents <= 3 elements')
@@ -29,15 +32,23 @@ UNIT = dict(
                  why='nested type of the kernel template (typename fc_kernel::iterator) is not resolved by the front end; the shell iterator type'),
             dict(lit='typedef typename fc_kernel::iterator fc_iterator;', to='typedef vx_iterator fc_iterator;', count=1, why='same')]),
         frag('collide', r'void collide\( fc_record& \w+, fc_record& \w+ \)'),
+        # the public entry points (what a caller sees): record set-up, combine / batch_combine, result taken from the record
+        frag('push_front', r'bool push_front\(\s*value_type const& \w+[^)]*\)', rewrites=[AUTO]),
+        frag('push_back', r'bool push_back\(\s*value_type const& \w+[^)]*\)', rewrites=[AUTO]),
+        frag('pop_front', r'bool pop_front\(\s*value_type& \w+[^)]*\)', rewrites=[AUTO]),
+        frag('pop_back', r'bool pop_back\(\s*value_type& \w+[^)]*\)', rewrites=[AUTO]),
         frag('collide_move', r'void collide_move\( fc_record& \w+, fc_record& \w+ \)', rewrites=[
             dict(lit='std::move( *(recPush.pValPush))', to='*(recPush.pValPush)', count=1, why='std::move on a trivially copyable value: the copy is the move')]),
     ],
     decl_rules=[
+        dict(path='cds/compiler/defs.h', re=r'#\s*define constexpr_if if', count=1),
         dict(path=FD, re=r'mutable fc_kernel m_FlatCombining;\s*deque_type\s+m_Deque;', count=1),
         dict(path='cds/algo/flat_combining/kernel.h', re=r'rec\.nRequest\.store\( req_Response, memory_model::memory_order_release \);', count='1+'),
     ],
     cxx=['shim.cpp'], c=['contracts.c'], cxxflags=['-Dconstexpr=', '-Dnoexcept=', '-Dexplicit='],
     sabotage=[
+        dict(name='apply_pop_keeps_stale_empty_flag', quick=True, target='fc_apply', re=r'case op_pop_back:\s*assert\( pRec->pValPop \);\s*pRec->bEmpty = m_Deque\.empty\(\);\s*if \( !pRec->bEmpty \) \{',
+             to='case op_pop_back: if ( m_Deque.empty()) pRec->bEmpty = true; else {', count=1, groups=['entry_points'], expect_fail=r'C10\.entry'),
         dict(name='pop_back_collides_push_front', quick=True, target='fc_process', re=r'(case op_pop_back:.*?else \{\s*switch \( itPrev->op\(\)\) \{\s*case op_push_back:\s*collide\( \*itPrev, \*it \);\s*itPrev = itEnd;\s*break;\s*case) op_push_back_move:', to=r'\1 op_push_front_move:', count=1, dotall=True,
              groups=['fc_process'], expect_fail=r'C10\.collide: a push at one end'),
         dict(name='collide_sets_empty', target='collide', lit='recPop.bEmpty = false;', to='recPop.bEmpty = true;', count=1, groups=['fc_process'], expect_fail=r'C10\.collide: the eliminated pop'),
@@ -56,6 +67,7 @@ UNIT = dict(
         G('fc_process', 'h_fc_process', ['FCDeque::fc_process', 'FCDeque::collide', 'FCDeque::collide_move'], [r'C10\.collide', r'C10\.fc_process'],
           unwind=8),
         G('fc_apply', 'h_fc_apply', ['FCDeque::fc_apply'], [r'C10\.fc_apply'], unwind=8),
+        G('entry_points', 'h_entry_points', ['FCDeque::push_front(const&)', 'FCDeque::push_back(const&)', 'FCDeque::pop_front', 'FCDeque::pop_back', 'FCDeque::fc_apply', 'FCDeque::fc_process'], [r'C10\.entry'], unwind=8),
         G('batch', 'h_batch', ['FCDeque::fc_process + fc_apply over one batch'], [r'C10\.batch'], unwind=8),
     ],
 )
